@@ -251,6 +251,10 @@ def _graph_worker(arg):
     count = 0
     want_sample = {8: "cycle", 2: "fork", 4: "diamond"}.get(shard) if n == 4 else None
     for mask in range(shard * stride, 1 << ne, nshards * stride):
+        if len(fails) >= 3:
+            # the run is going to report violations anyway; do not spend minutes on e.g. RecursionErrors
+            stats.notes.append("%s shard %d stopped at edge set %d after 3 unexplained failures" % (label, shard, mask))
+            break
         edges = [cand[k] for k in range(ne) if mask >> k & 1]
         reach = reach_masks(n, edges)
         cnt = path_counts(n, edges)
